@@ -32,7 +32,7 @@ def parse_behaviours(out: str) -> list:
 
 
 def simulate(module: str, cfg: str, num: int, depth: int, seed: int, workers: int = 2) -> tuple[list, dict]:
-    r = tlc.run_model(module, cfg, workers=workers, timeout=600, coverage=False,
+    r = tlc.run_model(module, cfg, workers=workers, timeout=600, coverage=False, heap='2g',
                       extra=['-simulate', f'num={max(1, num // workers)}', '-depth', str(depth), '-seed', str(seed + 1)])
     if r['violated']:
         raise tlc.TLCError(f'{module}: the specification violates {r["violated"]} in simulation\n' + r['out'][-2000:])
